@@ -17,7 +17,7 @@ namespace detail
 template <endianness E, typename T>
 inline void decode_int(T& x, const uint8_t* pos)
 {
-    x = *reinterpret_cast<const T*>(pos);
+    memcpy(&x, pos, sizeof(T));  /// native order: the bytes as they are (no typed load: alignment, signalling NaNs)
 }
 
 template <>
